@@ -93,6 +93,29 @@ def check_grad(op, case, rec, f64_tol=1e-5, f32_tol=2e-3):
                             f"g={g.ravel()[:6].tolist()}; {ctx}")
 
 
+    # the graph grows above the old root; the old root's own (live) .grad handle is the new upstream gradient
+    if case.get("extend") and not o.is_leaf and o.grad is not None:
+        before = [None if t.grad is None else np.array(t.grad.data, dtype=np.float64) for t in ts]
+        rec.tag("extended_above_root")
+        try:
+            (o * 3.0).backward(o.grad)
+        except Exception as e:  # noqa: BLE001
+            raise Violation("backward_raised", f"(result * 3).backward(result.grad) raised {type(e).__name__}: {e}; {ctx}")
+        fac = (passes + 3.0) / passes
+        for i, t in enumerate(ts):
+            if before[i] is None:
+                continue
+            now = np.asarray(t.grad.data, dtype=np.float64)
+            # (gradients formed by cancellation - x/x, batch-norm - carry rounding noise of the size of their TERMS,
+            #  so the comparison is relative to max(1, |g|, |gradient|), as in the finite-difference comparison)
+            tol = (1e-9 if dt == np.float64 else 1e-4) * max(1.0, float(np.abs(g).max(initial=0.0)),
+                                                              float(np.abs(before[i]).max(initial=0.0)) * fac)
+            if now.shape != before[i].shape or np.abs(now - fac * before[i]).max(initial=0.0) > tol:
+                raise Violation("grad_value", f"operand {i}: after (result*3).backward(result.grad) the accumulated gradient is not "
+                                              f"{fac:g} x the previous one: {now.ravel()[:4].tolist()} vs {(fac * before[i]).ravel()[:4].tolist()}; {ctx}",
+                                region="extended")
+
+
 def make_check(op, **kw):
     def check(case, rec):
         check_grad(op, case, rec, **kw)
